@@ -1052,13 +1052,13 @@ class EuclidLoop:
         # (B): high' = low (degree dl exact), lm' zero above d-dl; low' of degree <= dlb, hm' zero above d-dlb
         dlb = dh - 1 if dh >= dl else dh
         b1 = self._zero_above(path, post["high"], dl) and path.pc.prove_nonzero(coeff_abs(post["high"][dl], K).r.n)
-        path.prove(f"{nm}/loop.euclid/preserve.B", b1, kind="invariant", detail=f"{tag}: high' has exact degree {dl} >= 1")
+        path.prove(f"{nm}/loop.euclid/preserve.B", b1, kind="invariant", detail=f"{tag}: high' has exact degree {dl} >= 1", via="polyid")
         path.prove(f"{nm}/loop.euclid/preserve.B", self._zero_above(path, post["lm"], d - dl), kind="invariant",
-                   detail=f"{tag}: lm'[k] = 0 for k > d - deg high' = {d - dl}")
+                   detail=f"{tag}: lm'[k] = 0 for k > d - deg high' = {d - dl}", via="polyid")
         path.prove(f"{nm}/loop.euclid/preserve.B", self._zero_above(path, post["low"], min(dlb, d - 1)), kind="invariant",
-                   detail=f"{tag}: low'[k] = 0 for k > {min(dlb, d - 1)} (degree drops below deg high = {dh})")
+                   detail=f"{tag}: low'[k] = 0 for k > {min(dlb, d - 1)} (degree drops below deg high = {dh})", via="polyid")
         path.prove(f"{nm}/loop.euclid/preserve.B", self._zero_above(path, post["hm"], d - dlb), kind="invariant",
-                   detail=f"{tag}: hm'[k] = 0 for k > d - {dlb}")
+                   detail=f"{tag}: hm'[k] = 0 for k > d - {dlb}", via="polyid")
         path.prove(f"{nm}/loop.euclid/preserve.T", self._valid_fe(post["low"]) and self._valid_fe(post["high"]) and
                    self._valid_int(post["lm"]) and self._valid_int(post["hm"]), kind="invariant",
                    detail=f"{tag}: representation of the four lists")
@@ -1088,7 +1088,7 @@ class EuclidLoop:
                 path.prove(f"{nm}/loop.euclid/entry.I3", eqz(self._det(init, X), MX), kind="invariant", detail="1·M − 0·A = M")
                 b = self._zero_above(path, init["lm"], 0) and self._zero_above(path, init["hm"], -1) and \
                     self._zero_above(path, init["low"], d - 1) and path.pc.prove_nonzero(coeff_abs(init["high"][d], K).r.n)
-                path.prove(f"{nm}/loop.euclid/entry.B", b, kind="invariant", detail="deg high = d, lm = 1, hm = 0, deg low <= d-1")
+                path.prove(f"{nm}/loop.euclid/entry.B", b, kind="invariant", detail="deg high = d, lm = 1, hm = 0, deg low <= d-1", via="polyid")
                 path.in_source = True
                 g = interp.truth(interp.eval(st.test, fr), "loop guard")
                 path.in_source = False
@@ -1257,7 +1257,7 @@ def u_poly_rounded_div(ctx, modname, d):
         if not ok:
             return
         path.prove(f"{name}/ensures.degree", all(path.pc.prove_zero(coeff_abs(c_, fs.K).r.n) for c_ in res[t + 1:]),
-                   detail=f"coefficients above index {t} are zero modulo p")
+                   detail=f"coefficients above index {t} are zero modulo p", via="polyid")
         if da >= db:
             path.prove(f"{name}/ensures.lead", eqz(coeff_abs(res[t], fs.K) * coeff_abs(b[db], fs.K), coeff_abs(a[da], fs.K)),
                        detail="leading coefficient: q[top]·b[db] = a[da]")
